@@ -43,6 +43,9 @@ type VerifProducerControllerState struct {
 	DemandUpTo             int64
 	UnconfirmedSeqs        []int64
 	UnconfirmedIDs         []string
+	UnconfirmedMarks       [][3]bool // chunked, first, last
+	PendingChunks          int
+	WindowSpan             int64
 	Registered             bool
 	RegistrationNonce      string
 	Handshake              int
@@ -75,7 +78,11 @@ func (x *producerController) VerifState() VerifProducerControllerState {
 	for _, message := range x.unconfirmed {
 		state.UnconfirmedSeqs = append(state.UnconfirmedSeqs, message.Seq())
 		state.UnconfirmedIDs = append(state.UnconfirmedIDs, message.id())
+		state.UnconfirmedMarks = append(state.UnconfirmedMarks, [3]bool{message.chunk.chunked, message.chunk.first, message.chunk.last})
 	}
+
+	state.PendingChunks = len(x.pendingChunks)
+	state.WindowSpan = x.windowSpan
 
 	return state
 }
@@ -95,6 +102,8 @@ type VerifConsumerControllerState struct {
 	RequestUpToSeq    int64
 	BufferSeqs        []int64
 	BufferIDs         []string
+	BufferMarks       [][3]bool // chunked, first, last
+	RunLastSeq        int64
 	InFlightSeq       int64
 	InFlightID        string
 	SawValidTraffic   bool
@@ -121,7 +130,10 @@ func (x *consumerController) VerifState() VerifConsumerControllerState {
 	for _, message := range x.buffer {
 		state.BufferSeqs = append(state.BufferSeqs, message.Seq())
 		state.BufferIDs = append(state.BufferIDs, message.MessageID())
+		state.BufferMarks = append(state.BufferMarks, [3]bool{message.Chunked(), message.FirstChunk(), message.LastChunk()})
 	}
+
+	state.RunLastSeq = x.runLastSeq
 
 	if x.inFlight != nil {
 		state.InFlightSeq = x.inFlight.Seq()
